@@ -15,6 +15,7 @@ harness:
 	./.work/harness-verif consts > coq/gen/Extracted.v.new && mv coq/gen/Extracted.v.new coq/gen/Extracted.v
 	./.work/harness-verif translate > coq/gen/Translated.v.new && mv coq/gen/Translated.v.new coq/gen/Translated.v
 	./.work/harness-verif translate2 > coq/gen/Translated2.v.new && mv coq/gen/Translated2.v.new coq/gen/Translated2.v
+	./.work/harness-verif translate3 > coq/gen/Translated3.v.new && mv coq/gen/Translated3.v.new coq/gen/Translated3.v
 
 coq: harness
 	sh tools/mkcoqproject.sh
